@@ -195,7 +195,7 @@ def run(chk, repo, tier):
                 return None
             if isinstance(s_, ast.Assign) and len(s_.targets) == 1:
                 tg, v = s_.targets[0], s_.value
-                if isinstance(tg, ast.Tuple) and dotted(getattr(v, 'func', None)) == '_categorize_parameters':
+                if isinstance(tg, ast.Tuple) and cat is not None and dotted(getattr(v, 'func', None)) in ('_categorize_parameters', cat.name):
                     order = cat_ret[0] if cat_ret else ''
                     for e, part in zip(tg.elts, [p_.strip() for p_ in order.strip('()').split(',')]):
                         role = 'n_fixed_parameters' if part.startswith('fixed') else (
